@@ -55,44 +55,404 @@ Proof.
 Qed.
 
 (* ------------------------------------------------------------------------------------------ *)
-(** * the tail of _import_proof: word splitter and Z handling *)
+(** * dictionaries with consecutive keys *)
+
+Fixpoint numbered (b : N) (l : list str) : list (N * str) :=
+  match l with
+  | [] => []
+  | x :: r => (b, x) :: numbered (b + 1) r
+  end.
+
+Lemma numbered_get_none l : forall b k, (k < b \/ b + py_len l <= k) -> dict_get (numbered b l) k = None.
+Proof.
+  induction l as [|x l IH]; intros b k H; [reflexivity|].
+  cbn [numbered dict_get]. unfold py_len in *. cbn [length] in H.
+  destruct (b =? k) eqn:E; [apply N.eqb_eq in E; lia|].
+  apply IH. unfold py_len. lia.
+Qed.
+
+Lemma numbered_set_new l : forall b x, dict_set (numbered b l) (b + py_len l) x = numbered b (l ++ [x]).
+Proof.
+  induction l as [|y l IH]; intros b x.
+  - cbn. unfold py_len. cbn. rewrite N.add_0_r. reflexivity.
+  - cbn [numbered dict_set app]. unfold py_len. cbn [length].
+    destruct (b =? b + N.of_nat (S (length l))) eqn:E; [apply N.eqb_eq in E; lia|].
+    f_equal. specialize (IH (b + 1) x). unfold py_len in IH.
+    replace (b + N.of_nat (S (length l))) with (b + 1 + N.of_nat (length l)) by lia. exact IH.
+Qed.
+
+Lemma numbered_len b l : py_len (numbered b l) = py_len l.
+Proof. unfold py_len. f_equal. revert b. induction l as [|x l IH]; intros b; [reflexivity|]. cbn [numbered length]. rewrite IH. reflexivity. Qed.
+
+Lemma numbered_has l : forall b k, dict_has (numbered b l) k = (b <=? k) && (k <? b + py_len l).
+Proof.
+  induction l as [|x l IH]; intros b k; unfold dict_has in *; cbn [numbered dict_get].
+  - unfold py_len. cbn. rewrite N.add_0_r.
+    destruct (b <=? k) eqn:A; destruct (k <? b) eqn:B; try reflexivity.
+    apply N.leb_le in A. apply N.ltb_lt in B. lia.
+  - destruct (b =? k) eqn:E.
+    + apply N.eqb_eq in E. subst k. unfold py_len. cbn [length].
+      rewrite N.leb_refl. symmetry. apply N.ltb_lt. lia.
+    + apply N.eqb_neq in E. rewrite IH. unfold py_len. cbn [length].
+      destruct (b + 1 <=? k) eqn:A; destruct (b <=? k) eqn:B; destruct (k <? b + 1 + N.of_nat (length l)) eqn:C;
+        destruct (k <? b + N.of_nat (S (length l))) eqn:D; try reflexivity;
+        rewrite ?N.leb_le, ?N.leb_gt, ?N.ltb_lt, ?N.ltb_ge in *; lia.
+Qed.
+
+Definition floats_of (stmts : list gstmt) : list (str * str) :=
+  flat_map (fun s => match s with GFloating l v => [(l, v)] | GOther => [] end) stmts.
+
+(* ------------------------------------------------------------------------------------------ *)
+(** * parse_lemmas *)
+
+Lemma for_break_nonempty p c r : exists j, for_break p (c :: r) = Some j.
+Proof.
+  revert c. induction r as [|d r IH]; intros c.
+  - cbn [for_break]. destruct (p c); eauto.
+  - destruct (IH d) as [j Hj].
+    change (for_break p (c :: d :: r)) with (if p c then Some O else option_map S (for_break p (d :: r))).
+    rewrite Hj. destruct (p c); cbn; eauto.
+Qed.
+
+(** [for i, x in enumerate(xs): if p x: break] *)
+Lemma enum_break_loop (body : N -> N -> option N -> option (ctrl * option N)) (p : N -> bool) :
+  (forall i x st, body i x st = if p x then Some (CBreak, Some i) else Some (CNext, Some i)) ->
+  forall xs i0 st0,
+    py_for_enum body i0 xs st0 =
+    Some (match for_break p xs with Some j => Some (i0 + N.of_nat j) | None => st0 end).
+Proof.
+  intros Hb. induction xs as [|c r IH]; intros i0 st0; [reflexivity|].
+  cbn [py_for_enum]. rewrite Hb.
+  assert (FB : for_break p (c :: r) = if p c then Some O else match r with [] => Some O | _ :: _ => option_map S (for_break p r) end)
+    by (destruct r; reflexivity).
+  rewrite FB. destruct (p c).
+  - rewrite N.add_0_r. reflexivity.
+  - destruct r as [|d r].
+    + cbn. rewrite N.add_0_r. reflexivity.
+    + rewrite IH. destruct (for_break_nonempty p d r) as [j Hj]. rewrite Hj. cbn [option_map].
+      do 2 f_equal. lia.
+Qed.
+
+(** the label-registering loop *)
+Lemma label_loop (body : N -> N -> option N * list (N * str) * N * str -> option (ctrl * (option N * list (N * str) * N * str))) :
+  (forall i c io d n buf, body i c (io, d, n, buf) =
+     if is_space c then Some (CNext, (Some i, dict_set d n buf, n + 1, []))
+     else if c =? 41 then Some (CBreak, (Some i, d, n, buf))
+     else Some (CNext, (Some i, d, n, buf ++ [c]))) ->
+  forall s i io tbl buf, exists n' b',
+    py_for_enum body i s (io, numbered 1 tbl, py_len tbl + 1, buf) =
+    Some (match s with [] => io | _ :: _ => Some (N.of_nat (snd (lab_loop s buf (N.to_nat i)))) end,
+          numbered 1 (tbl ++ fst (lab_loop s buf (N.to_nat i))), n', b').
+Proof.
+  intros Hb. induction s as [|c r IH]; intros i io tbl buf.
+  - cbn. rewrite app_nil_r. eauto.
+  - cbn [py_for_enum lab_loop]. rewrite Hb. destruct (is_space c); [|destruct (c =? 41)]; cbv iota beta.
+    + replace (py_len tbl + 1) with (1 + py_len tbl) by lia. rewrite numbered_set_new.
+      replace (1 + py_len tbl + 1) with (py_len (tbl ++ [buf]) + 1) by (unfold py_len; rewrite app_length; cbn [length]; lia).
+      destruct (IH (i + 1) (Some i) (tbl ++ [buf]) []) as (n' & b' & E). exists n', b'. etransitivity; [exact E|].
+      replace (N.to_nat (i + 1)) with (S (N.to_nat i)) by lia.
+      destruct (lab_loop r [] (S (N.to_nat i))) as [ls l] eqn:EL. cbn [fst snd].
+      rewrite <- app_assoc. cbn [app].
+      assert (X : match r with [] => Some i | _ :: _ => Some (N.of_nat l) end = Some (N.of_nat l)).
+      { destruct r; [|reflexivity]. cbn in EL. inversion EL. f_equal. lia. }
+      rewrite X. reflexivity.
+    + cbn [fst snd]. rewrite app_nil_r, N2Nat.id. exists (py_len tbl + 1), buf. reflexivity.
+    + destruct (IH (i + 1) (Some i) tbl (buf ++ [c])) as (n' & b' & E). exists n', b'. etransitivity; [exact E|].
+        replace (N.to_nat (i + 1)) with (S (N.to_nat i)) by lia.
+        assert (X : match r with [] => Some i | _ :: _ => Some (N.of_nat (snd (lab_loop r (buf ++ [c]) (S (N.to_nat i))))) end
+                    = Some (N.of_nat (snd (lab_loop r (buf ++ [c]) (S (N.to_nat i)))))).
+        { destruct r; [|reflexivity]. cbn. f_equal. lia. }
+        rewrite X. reflexivity.
+Qed.
+
+Lemma skipn_py {A} (l : list A) (n : nat) : py_slice_from l (N.of_nat n) = skipn n l.
+Proof. unfold py_slice_from. rewrite Nat2N.id. reflexivity. Qed.
+
+Theorem gen_parse_lemmas_eq : forall proof mand,
+  gen_parse_lemmas proof (numbered 1 mand) =
+  match parse_lemmas proof with
+  | Some (ls, off) => Some (numbered 1 (mand ++ ls), N.of_nat off)
+  | None => None
+  end.
+Proof.
+  intros proof mand. unfold gen_parse_lemmas, parse_lemmas.
+  rewrite (enum_break_loop _ (fun c => c =? 40)) by (intros; reflexivity).
+  destruct (for_break (fun c => c =? 40) proof) as [i|]; [|reflexivity].
+  cbv beta iota. rewrite N.add_0_l.
+  replace (N.of_nat i + 1) with (N.of_nat (i + 1)) by lia. rewrite skipn_py.
+  rewrite (enum_break_loop _ (fun c => negb (is_space c))) by (intros; reflexivity).
+  destruct (for_break (fun c => negb (is_space c)) (skipn (i + 1) proof)) as [j|]; [|reflexivity].
+  cbv beta iota zeta. rewrite N.add_0_l.
+  replace (N.of_nat i + N.of_nat j + 1) with (N.of_nat (i + j + 1)) by lia. rewrite skipn_py.
+  rewrite numbered_len.
+  match goal with |- context [py_for_enum ?b 0 _ _] => set (body := b) end.
+  destruct (label_loop body ltac:(intros; reflexivity) (skipn (i + j + 1) proof) 0 None mand []) as (n' & b' & E).
+  unfold str in *. rewrite E. clear E. change (N.to_nat 0) with O.
+  destruct (skipn (i + j + 1) proof) as [|c s]; [reflexivity|].
+  destruct (lab_loop (c :: s) [] 0) as [ls l]. cbn [fst snd].
+  do 2 f_equal. lia.
+Qed.
+
+(* ------------------------------------------------------------------------------------------ *)
+(** * split_proof and the whole of _import_proof *)
 
 Section WithCtx.
   Variable stmts : list gstmt.
   Variable mv : list str.
 
-  Lemma gen_steps_loop body :
-    body = (fun (v_letter : N) (st : list N * list N) =>
-      let '(out, buf) := st in
-      if v_letter =? 90 then
-        if is_nil buf then Some (CNext, (out ++ [0], buf)) else None
-      else
-        let buf := buf ++ [v_letter] in
-        if dict_has gen_lsdigit v_letter then
-          match gen_convert_to_number buf with
-          | None => None
-          | Some t => Some (CNext, (out ++ [t], []))
-          end
-        else Some (CNext, (out, buf))) ->
-    forall s out buf,
-      match steps_loop s buf, py_for body s (out, buf) with
-      | Some r, Some (o, _) => o = out ++ r
-      | None, None => True
-      | _, _ => False
-      end.
+  Theorem gen_split_proof_eq : forall proof,
+    gen_split_proof stmts mv proof =
+    match split_proof (mand_db_order (floats_of stmts) mv) proof with
+    | Some (tbl, applied) => Some (numbered 1 tbl, applied)
+    | None => None
+    end.
   Proof.
-    intros Hb. induction s as [|c s IH]; intros out buf.
-    - cbn. rewrite app_nil_r. reflexivity.
-    - cbn [steps_loop py_for]. rewrite Hb at 1. cbn beta iota. destruct (c =? 90) eqn:EZ.
-      + destruct buf as [|b buf]; cbn [is_nil]; [|exact I].
-        rewrite <- Hb. specialize (IH (out ++ [0]) []).
-        destruct (steps_loop s []) as [r|]; destruct (py_for body s (out ++ [0], [])) as [[o b']|]; cbn [option_map]; try exact IH.
-        rewrite IH, <- app_assoc. reflexivity.
-      + rewrite gen_lsdigit_has. destruct (lsdigit c) as [a|].
-        * rewrite gen_convert_to_number_eq. destruct (decode_word (buf ++ [c])) as [n|]; [|exact I].
-          rewrite <- Hb. specialize (IH (out ++ [n]) []).
-          destruct (steps_loop s []) as [r|]; destruct (py_for body s (out ++ [n], [])) as [[o b']|]; cbn [option_map]; try exact IH.
+    intros proof. unfold gen_split_proof, split_proof.
+    destruct proof as [|c0 proof0]; [reflexivity|]. cbn [is_nil negb].
+    set (proof := c0 :: proof0).
+    match goal with |- context [py_for ?b stmts _] => set (body1 := b) end.
+    assert (L1 : forall ss tbl, py_for body1 ss (numbered 1 tbl, py_len tbl + 1) =
+                 Some (numbered 1 (tbl ++ mand_db_order (floats_of ss) mv),
+                       py_len (tbl ++ mand_db_order (floats_of ss) mv) + 1)).
+    { induction ss as [|s ss IH]; intros tbl.
+      - cbn. rewrite app_nil_r. reflexivity.
+      - cbn [py_for]. unfold body1 at 1. destruct s as [l v|]; cbn [gs_is_floating gs_metavariable gs_label andb].
+        + unfold mand_db_order. cbn [floats_of flat_map app filter snd]. destruct (mem_str v mv).
+          * replace (py_len tbl + 1) with (1 + py_len tbl) by lia. rewrite numbered_set_new.
+            replace (1 + py_len tbl + 1) with (py_len (tbl ++ [l]) + 1)
+              by (unfold py_len; rewrite app_length; cbn [length]; lia).
+            fold body1. rewrite IH. unfold mand_db_order. cbn [map fst]. rewrite <- app_assoc. reflexivity.
+          * fold body1. rewrite IH. reflexivity.
+        + fold body1. rewrite IH. reflexivity. }
+    change (@nil (N * str)) with (numbered 1 []) at 1.
+    change 1 with (py_len (@nil str) + 1) at 2.
+    unfold str in *. rewrite L1. cbn [app]. cbv beta iota.
+    rewrite gen_parse_lemmas_eq.
+    destruct (parse_lemmas proof) as [[ls off]|]; [|reflexivity].
+    rewrite skipn_py.
+    match goal with |- context [py_for ?b (skipn off proof) _] => set (body2 := b) end.
+    assert (L2 : forall xs acc, py_for body2 xs acc = Some (acc ++ filter (fun c => negb (is_space c)) xs)).
+    { induction xs as [|c xs IH]; intros acc.
+      - cbn. rewrite app_nil_r. reflexivity.
+      - cbn [py_for filter]. unfold body2 at 1. destruct (is_space c); cbn [negb]; fold body2; rewrite IH.
+        + reflexivity.
+        + rewrite <- app_assoc. reflexivity. }
+    rewrite L2. reflexivity.
+  Qed.
+
+  Theorem gen_import_proof_eq : forall proof,
+    gen_import_proof stmts mv proof =
+    match import_proof (mand_db_order (floats_of stmts) mv) proof with
+    | Some (tbl, st) => Some (numbered 1 tbl, st)
+    | None => None
+    end.
+  Proof.
+    intros proof. unfold gen_import_proof, import_proof. rewrite gen_split_proof_eq.
+    destruct (split_proof (mand_db_order (floats_of stmts) mv) proof) as [[tbl applied]|]; [|reflexivity].
+    match goal with |- context [py_for ?b applied _] => set (body := b) end.
+    assert (L : forall s out buf,
+               match steps_loop s buf, py_for body s (out, buf) with
+               | Some r, Some (o, _) => o = out ++ r
+               | None, None => True
+               | _, _ => False
+               end).
+    { induction s as [|c s IH]; intros out buf; unfold str in *.
+      - cbn. rewrite app_nil_r. reflexivity.
+      - cbn [steps_loop py_for]. remember (body c (out, buf)) as bc eqn:Hbc.
+        unfold body in Hbc. cbv beta iota in Hbc. subst bc. destruct (c =? 90) eqn:EZ.
+        + destruct buf as [|b buf]; cbn [is_nil]; [|exact I].
+          specialize (IH (out ++ [0]) []). revert IH.
+          destruct (steps_loop s []) as [r|]; destruct (py_for body s (out ++ [0], [])) as [[o b']|];
+            cbn [option_map]; intros IH; try exact IH.
           rewrite IH, <- app_assoc. reflexivity.
-        * rewrite <- Hb. apply IH.
+        + rewrite gen_lsdigit_has. destruct (lsdigit c) as [a|].
+          * rewrite gen_convert_to_number_eq. destruct (decode_word (buf ++ [c])) as [n|]; [|exact I].
+            specialize (IH (out ++ [n]) []). revert IH.
+            destruct (steps_loop s []) as [r|]; destruct (py_for body s (out ++ [n], [])) as [[o b']|];
+              cbn [option_map]; intros IH; try exact IH.
+            rewrite IH, <- app_assoc. reflexivity.
+          * apply IH. }
+    specialize (L applied [] []). unfold split_steps, str in *. revert L.
+    destruct (steps_loop applied []) as [r|]; destruct (py_for body applied ([], [])) as [[o b']|]; intros L; try contradiction.
+    - subst o. reflexivity.
+    - reflexivity.
   Qed.
 End WithCtx.
+
+(* ------------------------------------------------------------------------------------------ *)
+(** * exec_proof: what a number denotes during replay *)
+
+Definition erase {A} (e : ev A) : gev A :=
+  match e with EZ p => GSave p | ELabel t => GLabel t | ERef _ p => GLoad p end.
+
+Section ReplayAgree.
+  Variable A : Type.
+  Variable eqb : A -> A -> bool.
+
+  Theorem gen_replay_eq : forall (tbl : list str) (m k : nat) steps,
+    length tbl = (m + k)%nat ->
+    gen_replay A (numbered 1 tbl) steps =
+    option_map (map erase) (replay_marks eqb false m k steps None []).
+  Proof.
+    intros tbl m k steps Hlen. unfold gen_replay. rewrite numbered_len.
+    match goal with |- context [py_for ?b steps _] => set (body := b) end.
+    assert (L : forall ss mem tr top,
+               match replay_marks eqb false m k ss top mem, py_for body ss (mem, tr, top) with
+               | Some evs, Some (_, tr', _) => tr' = tr ++ map erase evs
+               | None, None => True
+               | _, _ => False
+               end).
+    { induction ss as [|[n t] ss IH]; intros mem tr top.
+      - cbn. rewrite app_nil_r. reflexivity.
+      - cbn [replay_marks py_for]. remember (body (n, t) (mem, tr, top)) as bc eqn:Hbc.
+        unfold body in Hbc. cbv beta iota zeta in Hbc. cbn [fst snd] in Hbc. subst bc.
+        rewrite numbered_has. unfold classify, py_len. rewrite Hlen.
+        destruct (n =? 0) eqn:E0.
+        + apply N.eqb_eq in E0. subst n. cbn [N.leb N.compare andb negb].
+          destruct top as [p|]; [|exact I]. cbn [andb].
+          specialize (IH (mem ++ [p]) (tr ++ [GSave p]) (Some p)). revert IH.
+          destruct (replay_marks eqb false m k ss (Some p) (mem ++ [p])) as [evs|];
+            destruct (py_for body ss (mem ++ [p], tr ++ [GSave p], Some p)) as [[[m' tr'] top']|];
+            cbn [option_map]; intros IH; try exact IH.
+          rewrite IH, <- app_assoc. reflexivity.
+        + apply N.eqb_neq in E0.
+          destruct (Nat.leb (N.to_nat n) m) eqn:L1; [|destruct (Nat.leb (N.to_nat n) (m + k)) eqn:L2].
+          * apply Nat.leb_le in L1.
+            assert (X : (1 <=? n) && (n <? 1 + N.of_nat (m + k)) = true).
+            { apply andb_true_iff. split; [apply N.leb_le|apply N.ltb_lt]; lia. }
+            rewrite X. cbn [negb].
+            specialize (IH mem (tr ++ [GLabel t]) (Some t)). revert IH.
+            destruct (replay_marks eqb false m k ss (Some t) mem) as [evs|];
+              destruct (py_for body ss (mem, tr ++ [GLabel t], Some t)) as [[[m' tr'] top']|];
+              cbn [option_map]; intros IH; try exact IH.
+            rewrite IH, <- app_assoc. reflexivity.
+          * apply Nat.leb_le in L2.
+            assert (X : (1 <=? n) && (n <? 1 + N.of_nat (m + k)) = true).
+            { apply andb_true_iff. split; [apply N.leb_le|apply N.ltb_lt]; lia. }
+            rewrite X. cbn [negb].
+            specialize (IH mem (tr ++ [GLabel t]) (Some t)). revert IH.
+            destruct (replay_marks eqb false m k ss (Some t) mem) as [evs|];
+              destruct (py_for body ss (mem, tr ++ [GLabel t], Some t)) as [[[m' tr'] top']|];
+              cbn [option_map]; intros IH; try exact IH.
+            rewrite IH, <- app_assoc. reflexivity.
+          * apply Nat.leb_gt in L1. apply Nat.leb_gt in L2.
+            assert (X : (1 <=? n) && (n <? 1 + N.of_nat (m + k)) = false).
+            { apply andb_false_iff. right. apply N.ltb_ge. lia. }
+            rewrite X. cbn [negb]. unfold py_index.
+            replace (N.to_nat (n - N.of_nat (m + k) - 1)) with (N.to_nat n - m - k - 1)%nat by lia.
+            destruct (nth_error mem (N.to_nat n - m - k - 1)) as [p|]; [|exact I].
+            specialize (IH mem (tr ++ [GLoad p]) (Some p)). revert IH.
+            destruct (replay_marks eqb false m k ss (Some p) mem) as [evs|];
+              destruct (py_for body ss (mem, tr ++ [GLoad p], Some p)) as [[[m' tr'] top']|];
+              cbn [option_map]; intros IH; try exact IH.
+            rewrite IH, <- app_assoc. reflexivity. }
+    specialize (L steps [] [] None). revert L.
+    destruct (replay_marks eqb false m k steps None []) as [evs|];
+      destruct (py_for body steps ([], [], None)) as [[[m' tr'] top']|]; cbn [option_map]; intros L; try contradiction.
+    - subst tr'. reflexivity.
+    - reflexivity.
+  Qed.
+End ReplayAgree.
+
+(* ------------------------------------------------------------------------------------------ *)
+(** * The C15 statements, of the functions generated from the source *)
+
+Lemma source_decode_is_appendixB : forall w, gen_convert_to_number w = appendixB_decode w.
+Proof. intros w. rewrite gen_convert_to_number_eq. apply decode_word_is_appendixB. Qed.
+
+Lemma source_decode_encode : forall n, 1 <= n -> gen_convert_to_number (encode n) = Some n.
+Proof. intros n H. rewrite gen_convert_to_number_eq. apply decode_encode; exact H. Qed.
+
+Lemma source_encode_decode : forall w, valid_word w ->
+  exists n, gen_convert_to_number w = Some n /\ 1 <= n /\ encode n = w.
+Proof. intros w H. rewrite gen_convert_to_number_eq. apply encode_decode; exact H. Qed.
+
+Lemma source_encoding_unique : forall w1 w2 n,
+  gen_convert_to_number w1 = Some n -> gen_convert_to_number w2 = Some n -> w1 = w2.
+Proof. intros w1 w2 n. rewrite !gen_convert_to_number_eq. apply encoding_unique. Qed.
+
+Lemma source_import_spec : forall stmts mv pre items ls ws ss,
+  all_lex_space pre ->
+  Forall (fun it => tok_ok (fst it) /\ sep_ok (snd it)) items ->
+  map fst items = [40] :: ls ++ [41] :: ws ->
+  Forall label_ok ls -> Forall no_space ws ->
+  concat ws = concat (map render ss) -> Forall step_ok ss ->
+  gen_import_proof stmts mv (proof_field (layout pre items)) =
+  Some (numbered 1 (mand_db_order (floats_of stmts) mv ++ ls), map step_code ss).
+Proof.
+  intros stmts mv pre items ls ws ss H1 H2 H3 H4 H5 H6 H7. rewrite gen_import_proof_eq.
+  pose proof (import_statement_spec (floats_of stmts) mv pre items ls ws ss H1 H2 H3 H4 H5 H6 H7) as S.
+  unfold import_statement, mandatory in S. rewrite S. reflexivity.
+Qed.
+
+Lemma source_mandatory_order : forall stmts mv mv' proof, Permutation.Permutation mv mv' ->
+  gen_import_proof stmts mv proof = gen_import_proof stmts mv' proof.
+Proof. intros stmts mv mv' proof P. rewrite !gen_import_proof_eq, (mandatory_perm _ mv mv' P). reflexivity. Qed.
+
+(** keys of the generated table are consecutive from 1: [numbered 1 tbl] maps [n] to the n-th entry *)
+Lemma numbered_lookup : forall tbl b n, dict_get (numbered b tbl) n = if n <? b then None else nth_error tbl (N.to_nat (n - b)).
+Proof.
+  induction tbl as [|x tbl IH]; intros b n; cbn [numbered dict_get].
+  - destruct (n <? b); [reflexivity|]. destruct (N.to_nat (n - b)); reflexivity.
+  - destruct (b =? n) eqn:E.
+    + apply N.eqb_eq in E. subst n. rewrite N.ltb_irrefl, N.sub_diag. reflexivity.
+    + apply N.eqb_neq in E. rewrite IH. destruct (n <? b) eqn:A.
+      * apply N.ltb_lt in A. assert (X : (n <? b + 1) = true) by (apply N.ltb_lt; lia). rewrite X. reflexivity.
+      * apply N.ltb_ge in A. assert (X : (n <? b + 1) = false) by (apply N.ltb_ge; lia). rewrite X.
+        replace (N.to_nat (n - b)) with (S (N.to_nat (n - (b + 1)))) by lia. reflexivity.
+Qed.
+
+Fixpoint gsaved {A} (tr : list (gev A)) : list A :=
+  match tr with
+  | [] => []
+  | GSave p :: r => p :: gsaved r
+  | _ :: r => gsaved r
+  end.
+
+Lemma gsaved_erase {A} (tr : list (ev A)) : gsaved (map erase tr) = saved tr.
+Proof. induction tr as [|[p|t|j p] tr IH]; cbn [map erase gsaved saved]; rewrite ?IH; reflexivity. Qed.
+
+(** a load during replay comes from a step numbered m + k + j + 1 and loads what the (j+1)-th save stored *)
+Lemma source_marked_reference_denotes : forall (A : Type) (tbl : list str) (m k : nat) steps (tr : list (gev A)) i p,
+  length tbl = (m + k)%nat ->
+  gen_replay A (numbered 1 tbl) steps = Some tr ->
+  nth_error tr i = Some (GLoad p) ->
+  exists n t j, nth_error steps i = Some (n, t) /\ N.to_nat n = (m + k + j + 1)%nat /\
+                nth_error (gsaved (firstn i tr)) j = Some p.
+Proof.
+  intros A tbl m k steps tr i p Hlen H Hn.
+  rewrite (gen_replay_eq A (fun _ _ => false) tbl m k steps Hlen) in H.
+  destruct (replay_marks (fun _ _ => false) false m k steps None []) as [tr0|] eqn:E; [|discriminate].
+  cbn [option_map] in H. inversion H; subst tr. clear H.
+  destruct (replay_marks_inv _ _ _ _ _ _ _ E) as (L & R1 & _ & R3).
+  rewrite nth_error_map in Hn. destruct (nth_error tr0 i) as [e|] eqn:Ee; [|discriminate].
+  cbn [option_map] in Hn. destruct e as [q|t|j q]; cbn [erase] in Hn; try discriminate. inversion Hn; subst q.
+  assert (Hi : (i < length steps)%nat) by (rewrite <- L; apply nth_error_Some; congruence).
+  destruct (nth_error steps i) as [[n t]|] eqn:Es; [|apply nth_error_None in Es; lia].
+  specialize (R3 i n t Es). rewrite Ee in R3.
+  unfold classify in R3. destruct (n =? 0); [contradiction|].
+  destruct (Nat.leb (N.to_nat n) m) eqn:L1; [contradiction|].
+  destruct (Nat.leb (N.to_nat n) (m + k)) eqn:L2; [contradiction|].
+  apply Nat.leb_gt in L2. exists n, t, j. split; [reflexivity|]. split; [lia|].
+  rewrite firstn_map, gsaved_erase. specialize (R1 i j p Ee). cbn [app] in R1. exact R1.
+Qed.
+
+(** a save stores the term the preceding step left on top (Z marks the preceding step) *)
+Definition gterm {A} (e : gev A) : A := match e with GSave p => p | GLoad p => p | GLabel t => t end.
+Lemma source_z_marks_preceding_step : forall (A : Type) (tbl : list str) (m k : nat) steps (tr : list (gev A)) i p,
+  length tbl = (m + k)%nat ->
+  gen_replay A (numbered 1 tbl) steps = Some tr ->
+  nth_error tr i = Some (GSave p) ->
+  exists i', i = S i' /\ option_map gterm (nth_error tr i') = Some p.
+Proof.
+  intros A tbl m k steps tr i p Hlen H Hn.
+  rewrite (gen_replay_eq A (fun _ _ => false) tbl m k steps Hlen) in H.
+  destruct (replay_marks (fun _ _ => false) false m k steps None []) as [tr0|] eqn:E; [|discriminate].
+  cbn [option_map] in H. inversion H; subst tr. clear H.
+  rewrite nth_error_map in Hn. destruct (nth_error tr0 i) as [e|] eqn:Ee; [|discriminate].
+  cbn [option_map] in Hn. destruct e as [q|t|j q]; cbn [erase] in Hn; try discriminate. inversion Hn; subst q.
+  destruct (z_marks_preceding_step _ _ _ _ _ _ _ E Ee) as (i' & -> & Hp).
+  exists i'. split; [reflexivity|]. rewrite nth_error_map.
+  destruct (nth_error tr0 i') as [e'|]; [|discriminate]. cbn [option_map] in *. inversion Hp.
+  destruct e'; reflexivity.
+Qed.
